@@ -102,7 +102,7 @@ fn within_envelope(s: &PushState) -> bool {
         if is_size_operand(name) {
             for i in 0..4 {
                 if let Some(v) = s.int_stack.get(i) {
-                    if *v > 2000 {
+                    if *v > 2000 || (name == "CODE.RAND" && *v < -2000) {
                         return false;
                     }
                 }
